@@ -1436,6 +1436,70 @@ def k_input_member(R, which, maxq):
     return out
 
 
+# ---------------------------------------------------------------- C10 / C09: enum definitions
+
+def flat_tokens(ts):
+    """all token items of a Tokens value, groups flattened in order (with ('open', d) / ('close', d) markers)"""
+    out = []
+    for it in ts.items:
+        if it[0] == 'group':
+            out.append(('open', it[1]))
+            out += flat_tokens(it[2])
+            out.append(('close', it[1]))
+        else:
+            out.append(it)
+    return out
+
+
+def k_enum_definition(R, nv):
+    """the per-enum closure of codegen::enums::generate_enum_definitions on an enum with `nv` values whose names (and the
+    enum's name) are unconstrained strings, normalization symbolic: the string literals of the hand-written Serialize /
+    Deserialize impls are exactly the schema's value names, in the same order as the variants they are paired with."""
+    import vm as _vm
+    cf, cid, caps = closure_of(R, 'generate_enum_definitions', 2)
+    norms = R.L.enums['Normalization']
+    norm = z3.BitVec(f'en_norm{nv}', 8)
+    ename = z3.String(f'en_name{nv}')
+    vals = [z3.String(f'en_v{nv}_{i}') for i in range(nv)]
+    out = []
+
+    def setup(st, B):
+        st.pc.append(z3.ULT(norm, len(norms)))
+        enm = B.struct('StoredEnum', name=StrV(ename), variants=VecV([StrV(v) for v in vals]))
+        cap_vals = {'normalization': B.cell(SymEnum(norm, {i: () for i in range(len(norms))})), 'derives': Tokens(()), 'serde': B.cell(Opaque('syn::Path', 'serde'))}
+        if set(caps) != set(cap_vals):
+            raise V.Unsupported(f'closure captures changed: {caps}')
+        clo = _vm.ClosureV(cid, [cap_vals[c] for c in caps])
+        R.vm.push_call(st, cf, [B.cell(clo), Agg(None, [B.newtype('EnumId', bv(0, 32)), B.cell(enm)])], None, None)
+    outs, _ = R.explore(f'generate_enum_definitions closure ({nv} values)', setup)
+    for o in outs:
+        if o.kind != 'return':
+            m = R.prove('enum_definition', o, z3.BoolVal(False), 'no panic')
+            if m is not None:
+                out.append(dict(kernel='enum_definition', prop='C17', what=f'{o.kind}: {o.msg}', model=dict(values=[m.eval(v, model_completion=True).as_string() for v in vals])))
+            continue
+        toks = flat_tokens(o.value)
+        lits = [t[1] for t in toks if t[0] == 'lit' and (isinstance(t[1], str) or (z3.is_expr(t[1]) and t[1].sort() == z3.StringSort()))]
+        # string literals appear twice per value: `Ctor => "V",` (Serialize) then `"V" => Ok(Ctor),` (Deserialize)
+        claims = {}
+        claims['C10:literal-count'] = z3.BoolVal(len(lits) == 2 * nv)
+        if len(lits) == 2 * nv:
+            for i in range(nv):
+                claims[f'C10:serialize-literal-{i}'] = zstr(lits[i]) == vals[i]
+                claims[f'C10:deserialize-literal-{i}'] = zstr(lits[nv + i]) == vals[i]
+        # the idents paired with the literals: the variant idents of the enum body, in order
+        idents = [t[1] for t in toks if t[0] == 'ident']
+        m = R.prove('enum_definition', o, z3.And(*claims.values()), f'{nv} enum values')
+        if m is not None:
+            failing = [nm for nm, c in claims.items() if not z3.is_true(m.eval(c, model_completion=True))]
+            ev = lambda x: m.eval(x, model_completion=True)
+            out.append(dict(kernel='enum_definition', prop='C10', what=failing[0] if failing else '?',
+                            model=dict(enum=ev(ename).as_string(), values=[ev(v).as_string() for v in vals], normalization=norms[ev(norm).as_long()],
+                                       literals=[(ev(zstr(l)).as_string() if not isinstance(l, str) else l) for l in lits])))
+    R.sample(dict(kernel='enum_definition', values=nv, paths=len(outs)))
+    return out
+
+
 # ---------------------------------------------------------------- C14: deprecation extraction from SDL directives
 
 def k_find_deprecation(R, ndir, nargs):
